@@ -19,10 +19,11 @@ use crate::wl::{Gen, GenOpts, LitOpts, Style, ALL_FAULTS};
 /// interface (A, B), one that does not (Z), the radix / exponent letters (E, H, Q),
 /// underscore, every punctuation character of the grammar, digits 0 (block length
 /// zero, leading zeros, boolean), 1, 8 (not an octal digit) and 9, lower-case a, e, h (case
-/// folding of mnemonics, exponent and radix letters), blank, newline, a non-ASCII byte.
-pub const ALPHABET: [u8; 28] = [
+/// folding of mnemonics, exponent and radix letters), blank, newline, a UTF-8 continuation
+/// byte (0x80) and a UTF-8 lead byte (0xC3).
+pub const ALPHABET: [u8; 29] = [
     b'A', b'B', b'Z', b':', b';', b',', b'?', b'*', b'#', b'"', b'\'', b'.', b'+', b'-', b'E', b'H', b'Q', b'_', b'0', b'1', b'8', b'9', b'a',
-    b'e', b'h', b' ', b'\n', 0x80,
+    b'e', b'h', b' ', b'\n', 0x80, 0xC3,
 ];
 
 #[derive(Default)]
